@@ -43,7 +43,8 @@ func XW(t *T) {
 // the configuration is symbolic; excluded files carry no diagnostics and contribute nothing; with scan-tests on a test
 // file is a normal file except for TONL.
 func ZZC14Files() {
-	xname := nd.Enum("xname", "x.go", "x_test.go", "testdata/x.go", "gen/x.go", "x_test.go.go", "mytestdata.go")
+	// pinned (one path per name): code that takes the name apart (filepath.Dir, Base, Ext) then runs on concrete text
+	xname := nd.PinStr(nd.Enum("xname", "x.go", "x_test.go", "testdata/x.go", "gen/x.go", "x_test.go.go", "mytestdata.go"))
 	xig := nd.EnumPad("xig", " @ignore ALL", " plain")
 	scan := nd.Bool("scan_tests")
 	paths := nd.Enum("exclude_paths", "testdata", "", "gen,testdata", "x_")
